@@ -458,6 +458,12 @@ func assignedObjs(info *types.Info, n ast.Node) []types.Object {
 				}
 			}
 		}
+	case *ast.ValueSpec:
+		for _, nm := range s.Names {
+			if o := info.Defs[nm]; o != nil {
+				res = append(res, o)
+			}
+		}
 	case *ast.IncDecStmt:
 		if o := objOf(info, s.X); o != nil {
 			res = append(res, o)
